@@ -538,7 +538,7 @@ def key_availability(ctx, rule):
                 else:
                     raise AnalysisError(f"{uf.where(st)}: recovery of {util.const(tg.slice)} is guarded by {ast.unparse(e)} (not understood)")
             recover[util.const(tg.slice)] = conds
-    ctx.sites(rule, len(recover), 2, "key recovery for unexpected units (county_fips, district)")
+    ctx.sites(rule, len(recover), 1, "key recovery for unexpected units (county_fips, district)")
 
     def recovered(passed_list):
         return {k for k, conds in recover.items() if all((flag in passed_list) == want for flag, want in conds)}
